@@ -138,6 +138,7 @@ func cmdCheck(args []string) (code int) {
 			first.Stat("configs_cross_checked", 1)
 		}
 		modSetsCache = map[*Prog]*modSets{}
+		resetSummaries()
 		getterMemo = map[*ssa.Function]int{}
 	}
 	if tier == "thorough" {
